@@ -1,10 +1,10 @@
 (* Properties/C08.v — All views of a message agree: the two owned name types; decoding vs skipping;
    the three record-header flavours; the iterator API vs the cursor-style reader, record by record;
    marker-based random access; NameRef::eq vs comparison of the decoded names; label iteration vs
-   the RFC expansion.  (The Questions iterator is decided by the views stream, see DESIGN.md 12.) *)
+   the RFC expansion; the Questions iterator yields exactly the questions of the linear pass. *)
 From RsdnsModel Require Import Base GenReader Cursor Names Labels Header Tracker RData Reader Script Iter.
-From RsdnsModel.Spec Require Import WireName.
-From RsdnsModel.Proofs Require Import CursorSafe LabelsSound Views RandAccess Flavours IterAgree NameRefEq.
+From RsdnsModel.Spec Require Import WireName LinearPass.
+From RsdnsModel.Proofs Require Import CursorSafe LabelsSound Views RandAccess Flavours IterAgree NameRefEq ReaderRefine QuestionsIter.
 Open Scope N_scope.
 
 (* owned names of the two types: identical values, errors (with payloads) and resume positions,
@@ -83,3 +83,14 @@ Theorem C08_label_iteration_is_expansion : forall msg c ls,
   cwf msg c -> expands (vis msg c) None 0 (pos c) ls ->
   Forall (fun l => label_ok (snd l) = true) ls -> labels_drain msg c = Ok (ls, None).
 Proof. exact labels_drain_spec. Qed.
+
+(* MessageIterator::questions() drained, on a message all of whose announced questions parse
+   ([parsed], Properties/C09.v) and fit 255 octets: exactly the questions of the linear pass, in
+   order — each with the decoded text of the spec's labels ([name_text]), its type and class, i.e.
+   the very items question() of the cursor-style reader returns (C09_question_flavours) — and then
+   the end, without an error *)
+Theorem C08_questions_iterator : forall msg nq an ns ar qs rs e1 e2 h,
+  parsed msg nq an ns ar qs rs e1 e2 -> lenN qs = nq -> h_qd h = nq ->
+  Forall (fun it => a_fits255 it = true) qs ->
+  iter_questions msg h = (map (qobs msg) qs, None).
+Proof. exact iter_questions_spec. Qed.
